@@ -25,7 +25,7 @@ ANCHORS = [("lib/debian/deb822.py",
              "split_gpg_and_payload", "gpg_stripped_paragraph", "validate_input", "__setitem__",
              "_gpg_multivalued", "_AutoDecoder"]),
            ("lib/debian/_util.py", ["_CaseInsensitiveString", "OrderedSet"])]
-BUDGET = {"quick": 2600, "thorough": 36000}
+BUDGET = {"quick": 2400, "thorough": 22000}
 RULE = ("documents of 1-4 paragraphs of 1-5 fields; policy-valid names (mixed case, punctuation), pairwise distinct "
         "ignoring case; first lines from a pool (empty, leading ':' '#' '-', inner colon, leading/trailing blanks and "
         "tabs, NBSP, UTF-8, text that looks like a PGP armour line) or random over a 12-symbol alphabet; 0-3 "
@@ -205,7 +205,7 @@ def _leaf_cases(rng, n, tier):
                 for t in itertools.product(LEAF_ALPHA[which][:9 if L == 4 else 11], repeat=L):
                     out.append({"t": "leaf", "which": which, "line": "".join(t)})
         for L in range(0, 5):
-            for t in itertools.product(GPG_TOKENS[:11], repeat=L):
+            for t in itertools.product(GPG_TOKENS[:9 if L == 4 else 11], repeat=L):
                 out.append({"t": "leaf", "which": 3, "line": "".join(t)})
         for L in range(0, 5):
             for t in itertools.product([" ", "\t", "\n", "\r", "\x0b", "\x0c", "a", "\u00a0", "\x1c"], repeat=L):
